@@ -14,7 +14,7 @@ reg("C13", "simulations reproducible from their seed, conditioning honoured",
          "generator, in a pristine process forked before the worker touched the library, and with another seed; outputs "
          "are compared bit for bit ('differs' is only asserted on continuous outputs: not on facies maps, and for Gibbs on "
          "unconstrained samples). On the reference run: number of created columns, simulation ranks i != j differ, data "
-         "honoured at coinciding targets (1e-7 relative), |S - K| <= 50 sK + 1e-6 against a long-double reference "
+         "honoured at coinciding targets (1e-5 relative), |S - K| <= 50 sK + 1e-4 scale against a long-double reference "
          "(co)kriging (targets 2e-4 away from a datum make this sharp; unique neighbourhood, nbtuba >= 10, only models whose "
          "structures are simulated by smooth band processes: gaussian, cubic, sincard, besselj), every Gibbs / "
          "truncated-Gaussian value inside [L,U] (1e-10; equalities exact), plurigaussian facies at data nodes = observed "
